@@ -159,11 +159,14 @@ def render_mixed(idx, arity, i, j, ordered_first):
 """
 
 
-def render_empty_stub(idx, arity, pos):
+def render_empty_stub(idx, arity, pos, mentioned_before=False):
     elems = []
     for p in range(arity):
         if p == pos:
             elems.append("Mk::g.stub(|_each| {})")
+        elif mentioned_before and p == 0:
+            # the stub's method already has a (non-empty) clause further left
+            elems.append("Mk::g.each_call(matching!(9)).returns(9u32)")
         else:
             elems.append(f"Mk::f.each_call(matching!({p})).returns({p}u32)")
     expr = "(" + ", ".join(elems) + ")" if arity > 1 else elems[0]
@@ -224,6 +227,8 @@ def instances(tier):
     for arity in range(1, 7):
         for pos in range(arity):
             add(f"empty-stub:arity{arity}/{pos}", render_empty_stub(len(insts), arity, pos), {"kind": "empty-stub"})
+            if pos > 0:
+                add(f"empty-stub-after-mention:arity{arity}/{pos}", render_empty_stub(len(insts), arity, pos, True), {"kind": "empty-stub"})
     return insts
 
 
